@@ -284,6 +284,8 @@ def op_str(j):
         return f"@{j['e'][0]}[{ri_str(j['e'][1])}]"
     if "s" in j:
         return f"@{j['s'][0]}[{ri_str(j['s'][1])}:{ri_str(j['s'][2])}]"
+    if "t" in j:
+        return "{" + j["t"] + "}"
     raise ValueError(j)
 
 
@@ -348,6 +350,63 @@ def real_parse_proto(text):
         return {"ok": proto_json(T.parse_text_protosubroutine(text))}
     except Exception as e:  # noqa: BLE001
         return {"err": type(e).__name__}
+
+
+def real_parse_front(text):
+    """`parse_text_protosubroutine(text)` in the canonical form of the driver op `asm.parsetext`"""
+    try:
+        proto = T.parse_text_protosubroutine(text)
+        ver = proto.netqasm_version
+        return {"ver": list(ver) if ver is not None else None, "app": proto.app_id, "ok": proto_json(proto)}
+    except Exception as e:  # noqa: BLE001
+        return {"err": type(e).__name__}
+
+
+COMMENTS = ["// c", "//", "//x//y", "// set R0 1", " // $a", "//#", "\t// tab"]
+
+
+def render_front(prog, rng, macros=None, wild=False):
+    """Text for the whole front end: a (mostly legal) preamble in any order with comments, blank and
+    comment-only lines anywhere, indentation, comments after commands and label lines, argument
+    brackets with blanks, `{…}` macro values; `wild` adds the malformed forms."""
+    body = render_text(prog, rng, macros).split("\n")[2 + len(macros or []):]
+    pre = []
+    if rng.random() < 0.9:
+        pre.append("# NETQASM " + rng.choice(["0.0", "1.0", "10.3", " 2.7 "] + (["1", "a.b", "1.2.3", "+1.0"] if wild else [])))
+    if rng.random() < 0.9:
+        pre.append("# APPID " + rng.choice(["0", "3", "255"] + (["x", "1 2", "-1"] if wild else [])))
+    for k, v in (macros or []):
+        pre.append(rng.choice(["# DEFINE %s %s", "#DEFINE %s %s", "#  DEFINE %s %s", "## DEFINE %s %s"]) % (k, v))
+    if wild:
+        r = rng.random()
+        if r < 0.08:
+            pre.append("# " + rng.choice(["FOO 1", "NETQASM 1.0", "APPID 1", "DEFINE a", "DEFINE a b c", "DEFINE 1a R0",
+                                          "DEFINE a {R0", "DEFINE  x", "", "DEFINE a R1"]))
+        elif r < 0.12 and macros:
+            pre.append("# DEFINE %s R9" % macros[0][0])
+    rng.shuffle(pre)
+    out = []
+    for ln in pre + [None] + body:
+        while rng.random() < 0.12:
+            out.append(rng.choice(["", "   ", "\t", rng.choice(COMMENTS), "  " + rng.choice(COMMENTS)]))
+        if ln is None:
+            continue
+        if ln == "":
+            continue
+        if rng.random() < 0.2:
+            ln = rng.choice(["  ", "\t", " "]) + ln
+        if rng.random() < 0.2:
+            # a comment directly after a label line keeps it a label line; after blanks it does not
+            glue = "" if ln.endswith(":") and not wild else rng.choice(["", " ", "  "])
+            ln = ln + glue + rng.choice(COMMENTS).lstrip()
+        elif rng.random() < 0.1:
+            ln = ln + rng.choice([" ", "  ", "\t"])
+        out.append(ln)
+    if wild and rng.random() < 0.1:
+        out.insert(rng.randrange(len(out) + 1), rng.choice(
+            ["# APPID 7", "foo R0", "set(1 R0", "set R0 1)", ":", "L :", "1L:", "add R0 R1", "set R0 {x}", "set R0 @1[",
+             "array(3,) @0", "array( 3 ) @0", "x::", "LL::", "set  R0 1", "jmp"]))
+    return "\n".join(out) + ("\n" if rng.random() < 0.8 else "")
 
 
 def real_apply_macros(lines, macros):
